@@ -65,6 +65,7 @@ type runState struct {
 	attempts   [][]int
 	finalRes   [][]string // result of the last finished attempt ("" = none finished)
 	exitVC     [][]simrt.VC
+	exitSeq    [][]uint64 // sequence number of the latest exit per task
 	inFn       [][]bool
 	executing  []int
 	lastExitVC []simrt.VC // per graph: clock of the latest task exit (serial HB)
@@ -240,11 +241,13 @@ func Execute(sc *Scenario, ch simrt.Chooser, keepTrace bool) *Result {
 	r.attempts = mk()
 	r.finalRes = make([][]string, ng)
 	r.exitVC = make([][]simrt.VC, ng)
+	r.exitSeq = make([][]uint64, ng)
 	r.inFn = make([][]bool, ng)
 	for g := 0; g < ng; g++ {
 		r.attempts[g] = make([]int, n)
 		r.finalRes[g] = make([]string, n)
 		r.exitVC[g] = make([]simrt.VC, n)
+		r.exitSeq[g] = make([]uint64, n)
 		r.inFn[g] = make([]bool, n)
 	}
 	r.executing = make([]int, ng)
@@ -378,6 +381,19 @@ func (r *runState) taskFn(i, alt int, cancel context.CancelFunc) getoptions.Comm
 					r.fail("C13", "O13c", seq, "g%d t%02d: attempt %d does not happen-after attempt %d", g, i, k+1, k)
 				}
 			}
+			// O14d: a task that became ready only after cancel() had been called is never started
+			if k == 0 && r.cancelSeq != 0 && len(m.Deps[i]) > 0 {
+				var last uint64
+				lastD := -1
+				for _, d := range m.Deps[i] {
+					if r.exitSeq[g][d] > last {
+						last, lastD = r.exitSeq[g][d], d
+					}
+				}
+				if lastD >= 0 && r.cancelSeq < last {
+					r.fail("C14", "O14d", seq, "g%d t%02d was started although it became ready only after the context had been cancelled (cancel() at seq %d, its last dependency t%02d returned at seq %d)", g, i, r.cancelSeq, lastD, last)
+				}
+			}
 			for _, d := range m.Deps[i] {
 				if r.finalRes[g][d] != "ok" || r.inFn[g][d] {
 					r.fail("C13", "O13a", seq, "g%d t%02d entered but its dependency t%02d has not returned nil (last result %q, running=%v)", g, i, d, r.finalRes[g][d], r.inFn[g][d])
@@ -464,6 +480,7 @@ func (r *runState) taskFn(i, alt int, cancel context.CancelFunc) getoptions.Comm
 		r.executing[g]--
 		r.taskActive[i][alt]--
 		xseq := simrt.Note("exit", fmt.Sprintf("g%d t%02d #%d %s", g, i, k, a.Res))
+		r.exitSeq[g][i] = xseq
 		r.histAdd(fmt.Sprintf("exit g%d t%02d #%d %s", g, i, k, a.Res))
 		switch a.Res {
 		case "err":
@@ -943,15 +960,11 @@ func (r *runState) posthocGraph(g int, final bool) {
 			}
 		}
 	}
-	// O14d: after the scheduler observed cancellation nothing new is launched and Run fails
+	// Probes about the moment the scheduler looked at the context (no verdict depends on them: what
+	// a receive on ctx.Done() means to the implementation is its own business, DESIGN §14.5)
 	if o := r.obsSeq[g]; o != 0 {
 		if err == nil {
-			r.fail("C14", "O14d", r.retSeq[g], "g%d: cancellation was observed (seq %d) but Run returned nil", g, o)
-		}
-		for _, e := range r.entries {
-			if e.graph == g && e.seq > o && e.spawnSeq > o {
-				r.fail("C14", "O14d", e.seq, "g%d t%02d was launched (goroutine spawned at seq %d) after cancellation was observed at seq %d", g, e.task, e.spawnSeq, o)
-			}
+			res.Probes["polled_ctx_done_fired_but_run_returned_nil"]++
 		}
 		launched := 0
 		for _, e := range r.entries {
